@@ -7,6 +7,7 @@
 //     treated as one predicate (branch correlation),
 //   - deferred calls applied at rundefers,
 //   - static callees (and literals) summarised by their own path enumeration.
+//
 // Loops: each block may be visited at most maxVisits times on one path.
 package main
 
